@@ -612,7 +612,7 @@ impl<'r> Gen<'r> {
 
     /// An object of a codata type bound to a variable, and one observation of it: a destructor
     /// applied to all its arguments, when that ends in a returner.
-    fn gen_object(&mut self, ctx: &Ctx, size: usize) -> Option<(usize, V, VTy, usize, C, VTy)> {
+    pub fn gen_object(&mut self, ctx: &Ctx, size: usize) -> Option<(usize, V, VTy, usize, C, VTy)> {
         if self.sig.codatas.is_empty() {
             return None;
         }
